@@ -2,14 +2,14 @@ import ScryerModel.Drv.Util
 import ScryerModel.Model.Random
 /-! drv_C52.
 `script\t<id>\t<nblocks> <fuel> <call>*` — runs the call script on the model with the concrete
-`StdRng` stream (`seedStreamCached`), generator initially entropy-seeded (unpredictable).
+`StdRng` stream (`seedStream`, read through a cache), generator initially entropy-seeded (unpredictable).
   call ::= `S v` | `S sv` | `S i <int>` | `S o <text>` | `S x`        set_random/1
          | `I <arg> <arg> <arg>`                                      random_integer/3
          | `R <arg>`                                                  random/1
          | `M`                                                        maybe/0
          | `* <n> <call>`                                             the call n times
-  arg  ::= `v` | `i:<int>` | `o:<text without blanks>`
-Result: outcomes joined by `,` then ` pos=<words consumed since the last seed>`;
+  arg  ::= `v` | `i:<int>` (normalised) | `b:<int>` (arena Integer whatever the value) | `o:<text without blanks>`
+Result: outcomes joined by `;` then ` pos=<words consumed since the last seed>`;
   `true` `fails` `<int>` `f(<16 hex>)` `inst(<ctx>)` `type(<culprit>,<ctx>)` `?` (not predicted).
 `words\t<id>\t<seed> <n>` — the first n raw 32-bit words of the stream of the seed, hex.
 `pinned\t<id>\t<int>` — outcome of the pinned set_seed for that seed (`true` / `panic`). -/
@@ -32,7 +32,8 @@ def showOut : Out → String
 
 def pArg (t : String) : Option Arg :=
   if t = "v" then some .var
-  else if t.startsWith "i:" then (parseInt? (t.drop 2).toString).map .int
+  else if t.startsWith "i:" then (parseInt? (t.drop 2).toString).map fun n => .int n (normalBig n)
+  else if t.startsWith "b:" then (parseInt? (t.drop 2).toString).map fun n => .int n true
   else if t.startsWith "o:" then some (.other (t.drop 2).toString)
   else none
 
@@ -79,7 +80,8 @@ def runAll (nblocks fuel : Nat) (calls : List (Nat × Call)) : String := Id.run 
       match sd? with
       | some sd =>
         if cacheSeed != some sd then
-          strm := seedStreamCached sd nblocks
+          let cache := streamCache sd nblocks
+          strm := cachedStream sd cache
           cacheSeed := some sd
       | none => pure ()
       let cur := strm
@@ -91,7 +93,7 @@ def runAll (nblocks fuel : Nat) (calls : List (Nat × Call)) : String := Id.run 
         outs := outs.push (showOut o)
         g := g'
   let pos := match g with | some (_, p) => toString p | none => "-"
-  return ",".intercalate outs.toList ++ " pos=" ++ pos
+  return ";".intercalate outs.toList ++ " pos=" ++ pos
 
 def handle (op : String) (args : String) : String :=
   match op, words args with
@@ -102,7 +104,7 @@ def handle (op : String) (args : String) : String :=
   | "words", [sd, n] =>
     match sd.toNat?, n.toNat? with
     | some sd, some n =>
-      let s := seedStreamCached sd (n / 16 + 1)
+      let s := cachedStream sd (streamCache sd (n / 16 + 1))
       " ".intercalate ((List.range n).map fun i => hexN 8 (s i).toNat)
     | _, _ => "bad-args"
   | "pinned", [n] =>
